@@ -556,4 +556,5 @@ static void tun_gen(Ctx& ctx) {
     ctx.rc("any-fs", ctx.by_tier(16000, 160000), [&]() { return make(8, 100000); });
 }
 
+VK_FRESH_THREADS;
 VK_MAIN("C14")
